@@ -296,6 +296,11 @@ func (f *Frame) Region(v ssa.Value) (Region, bool) {
 	case *ssa.MakeSlice:
 		if sl, ok := x.Type().Underlying().(*types.Slice); ok {
 			if b, ok := sl.Elem().Underlying().(*types.Basic); ok && b.Kind() == types.Uint8 {
+				// make([]byte, K, cap) with a constant length and a run-time capacity
+				// (a pre-sized header that the payload is appended to) has K bytes
+				if k, isK := constIdx(x.Len, 0); isK && x.Len != nil && k <= 4096 {
+					return Region{F: f, Root: x, Off: 0, N: k}, true
+				}
 				return Region{F: f, Root: x, Off: 0, N: Open}, true
 			}
 		}
@@ -452,7 +457,7 @@ func (f *Frame) allocCall(ex *ssa.Extract) (ssa.Value, int, bool) {
 
 type writer struct {
 	at     ssa.Instruction
-	lo, hi int              // absolute byte range in the root
+	lo, hi int             // absolute byte range in the root
 	val    func(i int) Vec // nil = unknown content
 	what   string
 	copyOf ssa.Value // copy(window, copyOf): the window receives the bytes of that slice
@@ -533,6 +538,9 @@ func (f *Frame) collect(root ssa.Value) *rootInfo {
 	spare := true // may an append to a window that reaches the end of the root write in place?
 	if mk, isMk := root.(*ssa.MakeSlice); isMk {
 		spare = mk.Cap != mk.Len
+		if k, isK := constIdx(mk.Len, 0); isK && mk.Len != nil && k <= 4096 {
+			n = k
+		}
 	} else if ex, isEx := root.(*ssa.Extract); isEx {
 		// a fresh buffer returned by an allocating reader: capacity unknown
 		if size, _, ok := f.allocCall(ex); ok {
